@@ -79,6 +79,34 @@ def fids_of(pid, label):
     return [f"{pid}/{label}"]
 
 
+def _has_group(m):
+    if isinstance(m, dict):
+        if m.get("k") == "select" and m.get("group", {}).get("on") == 1 and m["group"].get("keys"):
+            return True
+        if m.get("k") == "select" and m.get("distinct") == 1:
+            return True
+        return any(_has_group(v) for v in m.values())
+    if isinstance(m, list):
+        return any(_has_group(v) for v in m)
+    return False
+
+
+def signature_class(case):
+    """Defects of the unchanged tree that show NONDETERMINISTICALLY (so they cannot be pinned per input) are
+    recognised by a narrow signature of the INPUT instead.  Currently one: a grouped/DISTINCT statement over data in
+    which some integer column holds both NULL and -1 — the hash-aggregation paths encode a NULL key as -1 and, depending
+    on how partial states of a multi-batch input are merged, fold the NULL group into the -1 group or not."""
+    if not _has_group(case.get("q")):
+        return None
+    for t in case["tables"]:
+        for j, (_, ty) in enumerate(t["cols"]):
+            if ty in ("int", "i32", "date"):
+                col = [r[j] for r in t["rows"]]
+                if vlib.NULL in col and -1 in col:
+                    return "sig:null-key-vs-minus-one"
+    return None
+
+
 def load_known(pid):
     path = os.path.join(FIND, pid + ".json")
     if os.path.exists(path):
@@ -127,6 +155,10 @@ def run_family(ctx, family, cases, cfgs, known, *, tier_name, env=None, allowed_
         fid = f"{ctx.pid}/{lab}"
         replay = {"kind": "sql", "family": family, "case": c, "cfg": cfgs[r["cfg"]], "env": env or {}, "label": lab,
                   "got": r["out"], "want_example": r["want"]}
+        sig = signature_class(c)
+        if sig and ctx.is_known(f"{ctx.pid}/{sig}") and not lab.startswith("panic") and lab != "hang":
+            ctx.known(f"{ctx.pid}/{sig}", {"sql": c["sql"][:200], "cfg": cfgname, "hash": h})
+            continue
         listed = known.get(family, {}).get(h, {}).get(cfgname)
         if os.environ.get("VERIF_LEARN"):
             listed = None                      # dev-time learning re-derives the whole list
@@ -161,7 +193,8 @@ def finish_cov(ctx, rule):
         path = os.path.join(FIND, ctx.pid + ".json")
         cur = json.load(open(path)) if os.path.exists(path) else {}
         for fam in ctx.cov.pop("_learn_fams", []):
-            cur[fam] = {}                       # a re-learned family replaces its old list
+            if os.environ.get("VERIF_LEARN") != "merge":
+                cur[fam] = {}                   # a re-learned family replaces its old list (merge mode: accumulates)
         for fam, d in learned.items():
             cur.setdefault(fam, {}).update(d)
         json.dump(cur, open(path, "w"), indent=0, sort_keys=True)
